@@ -757,6 +757,7 @@ class Gen:
         rng = self.rng
         name = f'h{idx}'
         mutates = rng.random() < self.p['mutate_helper_prob']
+        via_alias = False
         deco = '@fp.fpy'
         if rng.random() < self.p['helper_ctx_prob']:
             deco = f'@fp.fpy(ctx={rng.choice(["C3", "F8", "fp.FP32", "FX", "fp.FP64"])})'
@@ -773,7 +774,25 @@ class Gen:
             sc.vars['zs'] = 'L'
             sc.vars['z'] = 'R'
             self.list_len['zs'] = None
-            self.emit(1, f'zs[0] = {self.real(sc, 2)}')
+            if rng.random() < self.p.get('mutate_via_alias_prob', 0):
+                # the only write goes through a local alias of the parameter (what a purity analysis has to follow)
+                al = self.fresh('ws')
+                form = rng.random()
+                if form < 0.6:
+                    self.emit(1, f'{al} = zs')
+                elif form < 0.8:
+                    self.emit(1, f'{al} = zs if z == z else zs')
+                else:
+                    self.emit(1, f'{al}, _ = (zs, z)')
+                sc.vars[al] = 'L'
+                self.list_len[al] = None
+                self._alias_of = getattr(self, '_alias_of', {})
+                self._alias_of[al] = 'zs'
+                self.emit(1, f'{al}[0] = {self.real(sc, 2)}')
+                self.features.add('helper_mutates_via_alias')
+                via_alias = True
+            else:
+                self.emit(1, f'zs[0] = {self.real(sc, 2)}')
             self.min_len_helper = 1
         else:
             nargs = rng.choice([1, 2])
@@ -784,7 +803,9 @@ class Gen:
             for nm in names:
                 sc.vars[nm] = 'R'
         saved = self.exact_only
-        sc = self.block(sc, 1, 1, 2)
+        if not via_alias:
+            # (a helper whose only write goes through an alias keeps it that way: no further statements)
+            sc = self.block(sc, 1, 1, 2)
         self.emit(1, f'return {self.real(sc, 2)}')
         self.emit(0, '')
         self.exact_only = saved
